@@ -146,7 +146,7 @@ def choose_step(rng, cfg, fb, sim):
     hi = rng.randrange(MAX_HANDLES) % len(sim.world)
     if fb is not None:
         if fb["new_memo"] and cfg["p_mut"] > 0 and rng.random() < 0.5:
-            return {"h": fb["h"], "op": rng.choice(["toH", "toR", "toH", "toR", "normH"])}
+            return {"h": fb["h"], "op": rng.choice(["toH", "toR", "toH", "toR", "normH", "flip2", "flip3"])}
         if fb["changed"]:
             r = rng.random()
             if r < 0.3 and cfg["p_fork"] > 0:
@@ -155,7 +155,7 @@ def choose_step(rng, cfg, fb, sim):
                 return {"h": fb["h"], "op": rng.choice(CONSUMERS)}
     r = rng.random()
     if r < cfg["p_mut"]:
-        return {"h": hi, "op": rng.choice(["toH", "toR", "toH", "toR", "normH"])}
+        return {"h": hi, "op": rng.choice(["toH", "toR", "toH", "toR", "normH", "flip2", "flip3"])}
     r -= cfg["p_mut"]
     if r < cfg["p_fork"]:
         return {"h": hi, "op": rng.choice(FORK_OPS)}
@@ -195,9 +195,11 @@ class RunResult:
 
 def _drive(spec, A, stratum, index, producer, ref_mode="inproc"):
     """Common loop: `producer(sim, fb)` yields the next step or None."""
-    schedule = {"source": spec, "args": A, "steps": [], "ref": ref_mode}
+    # every other history runs with the recycled-id allocator seam (idseam.py)
+    ids = "recycled" if index % 2 else "real"
+    schedule = {"source": spec, "args": A, "steps": [], "ref": ref_mode, "ids": ids}
     try:
-        sim = Sim(spec, A, ref_mode=ref_mode)
+        sim = Sim(spec, A, ref_mode=ref_mode, ids=ids)
     except sources.SourceError as e:
         return RunResult(schedule, None, None, "source_failed", stratum, index, str(e))
     fb = None
@@ -242,7 +244,7 @@ def random_run(verif_seed, index, stratum="random"):
 
 # ------------------------------------------------------------- templates
 TEMPLATE_Q1 = [None, "uc_atoms", "conn", "uc_mols", "sym_mols", "labelled_uc_mols"]
-TEMPLATE_MUT = ["switch", "switch2", "normH"]
+TEMPLATE_MUT = ["switch", "flip3", "normH"]
 TEMPLATE_SRC = [
     ("co", None),
     ("co", "cif"),
@@ -300,7 +302,7 @@ def template_run(verif_seed, index, stratum="template"):
             choice = sim.world[0].space_group.choice
             other = "toR" if choice == "H" else "toH"
             back = "toH" if choice == "H" else "toR"
-            tail = {"switch": [other], "switch2": [other, back], "normH": ["normH"]}[mut]
+            tail = {"switch": [other], "switch2": [other, back], "flip3": ["flip3"], "normH": ["normH"]}[mut]
             rest = [{"h": target, "op": m} for m in tail] + [{"h": target, "op": q2}]
             rest += audit_steps(1, rng.sample(FAST_QUERIES, 4 if is_large(spec) else 6))
             state["rest"] = iter(rest)
@@ -583,7 +585,7 @@ SWEEP_ALPHABET = [
     "uc_atoms", "slab", "conn", "uc_mols", "sym_mols", "air", "asur", "menv",
     "density", "as_P1", "cif", "poscar", "sl_res", "res",
     "toH", "toR", "normH", "deepcopy", "pickle",
-    "toX", "reload", "labelled_uc_mols", "cif_data",
+    "toX", "reload", "labelled_uc_mols", "cif_data", "flip3",
 ]  # fmt: skip
 SWEEP_SOURCES = [
     {
